@@ -13,6 +13,9 @@ rank.  After EVERY step a monitor walks the current model with its own traversal
   proto-*              in ir.to_proto(model): each NodeProto tensor_name is one of the current names of
                        that node's inputs/outputs (and appears in NodeProto.input/output), each
                        configuration_id names a configuration of the ModelProto;
+  source-changed       cloning / serialising leaves the annotations, configurations and node inputs/outputs of
+                       the SOURCE model as they were, and the library's checker still reports nothing on it
+                       (the clauses hold for every model of the history, not only the newest one);
   invalid-accepted / invalid-changed-state / valid-rejected
                        an annotation request the harness's own oracle classifies invalid raises and
                        leaves the snapshot of every node.device_configurations and
@@ -39,7 +42,9 @@ LEVEL = "exploration"
 RULE = ("a case is one generated model (main graph + subgraphs + function; values of known and unknown rank; IR "
         "11-13) and a history of 12-70 operation descriptors over {add/remove_device_configuration (cascade, by object "
         "or name), shard (valid and invalid request classes), set_pipeline_stage, rename (to a fresh name, or to the name of a value of an enclosing/sibling graph = shadowing), replace_input_with, "
-        "resize_inputs/outputs, replace_all_uses_with, safe remove, clone, serialise+deserialise}; all clauses are "
+        "resize_inputs/outputs, replace_all_uses_with, safe remove, clone (Model.clone or Graph.clone+Function.clone "
+        "re-assembled, deep_copy False/True; a nested graph replaced by its own clone), serialise+deserialise (in memory, "
+        "bytes, file)}; all clauses are "
         "checked after every step; non-trivial = >=3 edit/clone/round-trip/cascade steps executed while a sharding "
         "spec was live and annotations in >=2 scopes; distinct = hash of the sequence of (operation kind, request class, raised)")
 ASSUMPTIONS = [
@@ -54,7 +59,9 @@ ASSUMPTIONS = [
     "a node annotation dropped by clone/deserialisation is counted (report_only_annotations_lost), not judged: the statement does not demand preservation",
 ]
 
-EDIT_KINDS = {"rename", "rename-shadow", "rin", "rsi", "rso", "rauw", "rm", "clone", "roundtrip", "rmcfg-cascade", "rmcfg-cascade-byname"}
+EDIT_KINDS = {"rename", "rename-shadow", "rin", "rsi", "rso", "rauw", "rm", "clone", "clone-deep", "clone-parts",
+              "clone-parts-deep", "subclone", "subclone-deep", "roundtrip", "rmcfg-cascade", "rmcfg-cascade-byname"}
+CLONE_KINDS = {"clone", "clone-deep", "clone-parts", "clone-parts-deep"}     # the whole model is replaced by a copy
 PROTO_SITES = ("device", "shard")
 
 
@@ -64,13 +71,17 @@ PROTO_SITES = ("device", "shard")
 def ann_snapshot(w: C19World, idx: Index):
     """Deep, identity-keyed snapshot of every node.device_configurations and of
     model.device_configurations (the observable an invalid request must leave unchanged)."""
+    return _ann_snapshot(w.model, w.detached, idx)
+
+
+def _ann_snapshot(model, detached, idx: Index):
     nodes = []
     for info in idx.nodes:
         nodes.append((id(info.node), _dcs(info.node)))
-    for n in w.detached:
+    for n in detached:
         nodes.append((id(n), _dcs(n)))
-    model = tuple((id(c), c.name, c.num_devices, tuple(c.device_names)) for c in w.model.device_configurations)
-    return tuple(nodes), model
+    cfgs = tuple((id(c), c.name, c.num_devices, tuple(c.device_names)) for c in model.device_configurations)
+    return tuple(nodes), cfgs
 
 
 def _dcs(node):
@@ -86,10 +97,14 @@ def _dcs(node):
 
 
 def io_map(w: C19World, idx: Index):
+    return _io_map(w.detached, idx)
+
+
+def _io_map(detached, idx: Index):
     m = {}
     for info in idx.nodes:
         m[id(info.node)] = (info.node, io_values(info.node))
-    for n in w.detached:
+    for n in detached:
         m[id(n)] = (n, io_values(n))
     return m
 
@@ -180,7 +195,7 @@ class Monitor:
                                   f"{op} raised {type(res.exc).__name__} but device configurations changed"))
         elif res.raised:
             self.cnt(f"exc:{kind}:{type(res.exc).__name__}")
-            if kind in ("clone", "roundtrip", "rename"):
+            if kind in CLONE_KINDS or kind in ("roundtrip", "rename", "subclone", "subclone-deep"):
                 site = raise_site(res.exc)
                 if kind == "roundtrip" and any(s in site.lower() for s in PROTO_SITES):
                     found.append(("serialize-raised", site, f"{op}: {type(res.exc).__name__}: {res.exc}"))
@@ -204,10 +219,31 @@ class Monitor:
                 self.cnt("edit_with_live_specs:" + kind)
                 for s in pre["scopes"]:
                     self.cnt(f"{kind}_annotated_scope:{s}")
-            if kind in ("clone", "roundtrip"):
+                if kind in CLONE_KINDS and kind != "clone":      # totals over the argument classes of cloning
+                    self.cnt("edit_with_live_specs:clone")
+                    for s in pre["scopes"]:
+                        self.cnt(f"clone_annotated_scope:{s}")
+                if kind.startswith("subclone"):
+                    inner = outer = 0        # specs inside the freshly cloned graph / of those, on outer-scope values
+                    new_graph = res.info["ret"]
+                    for i in idx.nodes:
+                        if not any(g is new_graph for g in idx.chain[id(i.graph)]):
+                            continue
+                        for dc in i.node.device_configurations:
+                            for sp in dc.sharding_specs:
+                                inner += 1
+                                dg = idx.def_graph.get(id(sp.value)) if sp.value is not None else None
+                                if dg is None or not any(g is new_graph for g in idx.chain[id(dg)]):
+                                    outer += 1
+                    if inner:
+                        self.cnt("subclones_of_graphs_with_specs")
+                    if outer:
+                        self.cnt("subclones_with_specs_on_outer_scope_values")
+            if kind in CLONE_KINDS or kind == "roundtrip":
                 specs, cfgs, _ = count_annotations(idx)
                 if (specs, cfgs) != (pre["specs"], pre["cfgs"]):
                     self.cnt("report_only_annotations_lost:" + kind)
+                found += self.check_source(res, pre, kind)
             if kind.startswith("rmcfg-cascade") and res.cls == "referenced":
                 self.cnt("cascade_removals_with_references")
                 for s in pre["scopes"]:
@@ -237,7 +273,7 @@ class Monitor:
         self.cnt("node_configurations_checked", n_cfgs)
 
         # ---- values that left a node --------------------------------------------------------
-        if kind not in ("clone", "roundtrip"):
+        if kind not in CLONE_KINDS and kind != "roundtrip":
             post = io_map(w, idx)
             for key, (node, before_io) in pre["io"].items():
                 if key not in post:
@@ -267,6 +303,28 @@ class Monitor:
 
         if self.only is not None:
             found = [f for f in found if (f[0], f[1]) == self.only]
+        return found
+
+    def check_source(self, res, pre, kind):
+        """The model a clone / round trip was taken from keeps satisfying the clauses: nothing observable about its
+        annotations changed (so what held before the step still holds) and the library's checker stays silent."""
+        src, detached = res.info.get("source"), res.info.get("source_detached", [])
+        if src is None:
+            return []
+        found = []
+        sidx = Index(src)
+        self.cnt("source_models_checked")
+        if _ann_snapshot(src, detached, sidx) != pre["ann"]:
+            found.append(("source-changed", kind, "device configurations of the source model (or of its nodes) differ "
+                          "from before the step"))
+        post = _io_map(detached, sidx)
+        if ({k: [id(v) for v in io] for k, (_, io) in post.items()}
+                != {k: [id(v) for v in io] for k, (_, io) in pre["io"].items()}):
+            found.append(("source-changed", kind, "inputs/outputs of nodes of the source model differ from before the step"))
+        errors = _multi_device._check_device_configurations(src)  # noqa: SLF001
+        if errors:
+            found.append(("lib-check-source", kind, "on the source model the library's device-configuration check "
+                          "reports: " + "; ".join(errors[:4])))
         return found
 
     def check_proto(self, w, idx, kind):
@@ -430,6 +488,12 @@ def plan(tier: str) -> dict:
             "valid_requests_judged": 3500 * k,
             "annotated_values_left_a_node": 225 * k,
             "edit_with_live_specs:clone": 275 * k,
+            "edit_with_live_specs:clone-deep": 80 * k,
+            "edit_with_live_specs:clone-parts": 40 * k,
+            "edit_with_live_specs:clone-parts-deep": 30 * k,
+            "source_models_checked": 700 * k,
+            "subclones_of_graphs_with_specs": 25 * k,
+            "subclones_with_specs_on_outer_scope_values": 10 * k,
             "edit_with_live_specs:roundtrip": 450 * k,
             "cascade_removals_with_references": 225 * k,
             "cascade_annotated_scope:func/sub": 60 * k,
